@@ -292,7 +292,11 @@ impl World {
             let cs = w.cs(creator);
             let (sk, pk) = cs.signature_key_generate().map_err(|e| format!("{e:?}"))?;
             let id = SigningIdentity::new(BasicCredential::new(b"external-sender".to_vec()).into_credential(), pk);
-            let ext = mls_rs::extension::built_in::ExternalSendersExt::new(vec![id.clone()]);
+            // a key roll-over of the service: the list keeps an older entry with the same credential and another key in
+            // front of the one the observer signs with (the sender index must be that of the observer's own key)
+            let (_old_sk, old_pk) = cs.signature_key_generate().map_err(|e| format!("{e:?}"))?;
+            let old = SigningIdentity::new(BasicCredential::new(b"external-sender".to_vec()).into_credential(), old_pk);
+            let ext = mls_rs::extension::built_in::ExternalSendersExt::new(vec![old, id.clone()]);
             ctx_ext.set_from(ext.clone()).map_err(|e| format!("{e:?}"))?;
             crate::replay::EXT_SENDERS.with(|e| *e.borrow_mut() = Some(ext));
             w.ext_signer = Some((sk, id));
